@@ -42,7 +42,9 @@ def fixed_cases(tier):
     """Size matrix: per repr, every variant count 2..=20 (with one hole and gapless) under the feature sets whose
     automatic mode choice depends on the size - a tie or threshold decided by anything but the declaration shows
     as two differing expansions."""
-    return [{"threshold": r, "procs": PROCS.get(tier, 8)} for r in ("u8", "i8", "u16", "i32", "u64")]
+    return ([{"threshold": r, "procs": PROCS.get(tier, 8)} for r in ("u8", "i8", "u16", "i32", "u64")] +
+            # wide spans: values of both signs at the limits of 64-bit and wider signed reprs, declared out of order
+            [{"threshold": r, "wide": True, "procs": PROCS.get(tier, 8)} for r in ("i64", "isize", "i128", "u64", "u128")])
 
 
 THRESHOLD_FEATS = [["iter"], ["iter", "as_str"], ["iter", "range"], ["as_str", "from_str"], ["iter", "next", "next_back", "names"]]
@@ -53,7 +55,18 @@ def run_threshold(case):
     out = J.Outcome()
     r = case["threshold"]
     items = []
-    for n in range(2, 21):
+    if case.get("wide"):
+        lo, hi = M.repr_domain(r)
+        for vals in ([lo, -1, 0, 1, hi], [lo, 0, hi], [lo, lo + 1, hi - 1, hi], [lo, lo // 2, 0, hi // 2, hi], [0, hi // 2, hi // 2 + 1, hi], [lo + 5, 7, hi - 3]):
+            vals = sorted({v for v in vals if lo <= v <= hi})
+            for rot in (1, 2):
+                decl = vals[rot:] + vals[:rot]
+                decl = decl[::-1] if rot == 2 else decl
+                spec = {"repr": r, "vis": "pub", "ident": "E", "enum_attrs": [],
+                        "variants": [{"ident": "V%d" % i, "disc": str(v)} for i, v in enumerate(decl)]}
+                for fs in THRESHOLD_FEATS:
+                    items.append(E.enum_item_text(spec, S.simple_config(fs), only_tools=True))
+    for n in (range(2, 21) if not case.get("wide") else ()):
         for holes in (False, True):
             vals = list(range(3, 3 + n))
             if holes:
@@ -94,7 +107,7 @@ def run_threshold(case):
     out.count("expansions_compared", total)
     out.count("threshold_declarations", len(items))
     out.nontrivial = True
-    out.fingerprint = J.fp("threshold", r)
+    out.fingerprint = J.fp("threshold", r, bool(case.get("wide")))
     out.sample = {"threshold_matrix": r, "declarations": len(items), "copies": TCOPIES, "processes": case["procs"]}
     return out
 
